@@ -126,6 +126,48 @@ theorem listscripts_writes_one_command (c : Client) (ha : c.authenticated = true
     · exact h
     · split <;> exact h
 
+/-- `checkscript` on a server announcing VERSION: one CHECKSCRIPT line carrying the content as a literal -/
+theorem checkscript_writes_one_command (c : Client) (content : Bytes) (ha : c.authenticated = true) (hc : c.connected = true)
+    (hv : capHas c (sb "VERSION") = true) :
+    (checkscript c content).2.writes = c.writes ++ [(c.tls, commandBytes (sb "CHECKSCRIPT") [.lit content])] := by
+  simp only [checkscript, guarded, ha, if_true, hv, Bool.not_true, Bool.false_eq_true, if_false, okOf_writes]
+  exact exchange_writes_one_command c _ _ none hc
+
+/-- … and on a server that does not: refused locally, nothing is written -/
+theorem checkscript_without_version_writes_nothing (c : Client) (content : Bytes) (hv : capHas c (sb "VERSION") = false) :
+    (checkscript c content).2.writes = c.writes := by
+  unfold checkscript guarded
+  split
+  · simp [hv]
+  · rfl
+
+/-- native `renamescript` (server announces VERSION): one RENAMESCRIPT line with both names -/
+theorem native_renamescript_writes_one_command (c : Client) (old new : Bytes) (ha : c.authenticated = true)
+    (hc : c.connected = true) (hv : capHas c (sb "VERSION") = true) :
+    (renamescript c old new).2.writes = c.writes ++ [(c.tls, commandBytes (sb "RENAMESCRIPT") [.str old, .str new])] := by
+  simp only [renamescript, guarded, ha, if_true, hv, okOf_writes]
+  exact exchange_writes_one_command c _ _ none hc
+
+theorem capability_writes_one_command (c : Client) (hc : c.connected = true) :
+    (capability c).2.writes = c.writes ++ [(c.tls, commandBytes (sb "CAPABILITY") [])] := by
+  have h := exchange_writes_one_command c (sb "CAPABILITY") [] none hc
+  unfold capability
+  revert h
+  generalize sendCommand c (sb "CAPABILITY") [] [] none = x
+  intro h
+  obtain ⟨v, c1⟩ := x
+  cases v <;> exact h
+
+theorem logout_writes_one_command (c : Client) (hc : c.connected = true) :
+    (logout c).2.writes = c.writes ++ [(c.tls, commandBytes (sb "LOGOUT") [])] := by
+  have h := exchange_writes_one_command c (sb "LOGOUT") [] none hc
+  unfold logout
+  revert h
+  generalize sendCommand c (sb "LOGOUT") [] [] none = x
+  intro h
+  obtain ⟨v, c1⟩ := x
+  cases v <;> exact h
+
 /-- an unauthenticated call writes nothing at all -/
 theorem unauthenticated_call_writes_nothing {α : Type} (c : Client) (f : Client → Res α) (h : c.authenticated = false) :
     (guarded c f).2.writes = c.writes := by
